@@ -122,18 +122,16 @@ func checkC19(c *core.Ctx, l *core.Ledger) {
 			}
 		}
 		l.Check(len(missing) == 0, "EXH", "FormatType.fields", c.Rel(fd.Pos()), fmt.Sprintf("all %d pointer fields of api.Type are formatted", len(handled)), "FormatType does not handle api.Type fields "+strings.Join(missing, ", "))
-		if simple == nil {
-			l.Unk("EXH", "FormatType.simple", c.Rel(fd.Pos()), "no switch over api.SimpleType found")
-		} else {
-			st := c.Pkg("plugin/api").Types.Scope().Lookup("SimpleType").Type()
-			var miss []string
-			for _, k := range core.ConstsOf(c.Pkg("plugin/api").Types, st) {
-				if !simple.HasCaseVal(k.Val()) {
-					miss = append(miss, k.Name())
-				}
+		_ = simple
+		tab := formatSimpleTable(c)
+		var miss []string
+		st := c.Pkg("plugin/api").Types.Scope().Lookup("SimpleType").Type()
+		for _, k := range core.ConstsOf(c.Pkg("plugin/api").Types, st) {
+			if _, ok := tab[k.Name()]; !ok {
+				miss = append(miss, k.Name())
 			}
-			l.Check(len(miss) == 0, "EXH", "FormatType.simple", c.Rel(simple.Node.Pos()), "every api.SimpleType constant is formatted", "FormatType does not format "+strings.Join(miss, ", "))
 		}
+		l.Check(len(miss) == 0 && len(tab) > 0, "EXH", "FormatType.simple", c.Rel(fd.Pos()), "every api.SimpleType constant is formatted to a fixed Go type name (switch, if-chain or literal table alike)", "FormatType does not format "+strings.Join(miss, ", "))
 	}
 	// buildType totality (no kind reaches its panic) — via kind analysis
 	bt := c.SSAFunc(c.LookupFunc("gen", "generateServiceBuilder.buildType"))
@@ -303,32 +301,8 @@ func checkSimpleAgree(c *core.Ctx, l *core.Ledger) {
 			}
 		}
 	}
-	// FormatType: SimpleType constant → literal
-	fmtLit := map[string]string{}
-	if fobj := c.LookupFunc("plugin", "goFileGenerator.FormatType"); fobj != nil {
-		info := c.DeclPkg(fobj).TypesInfo
-		for _, sw := range core.Switches(info, c.Decl(fobj).Body) {
-			if sw.IsType || sw.Tag == nil || core.TypeLabel(sw.TagType) != "plugin/api.SimpleType" {
-				continue
-			}
-			for _, cc := range sw.Clauses {
-				lit := ""
-				for _, b := range cc.Body {
-					ast.Inspect(b, func(n ast.Node) bool {
-						if bl, ok := n.(*ast.BasicLit); ok && bl.Kind == token.STRING && lit == "" {
-							lit, _ = strconv.Unquote(bl.Value)
-						}
-						return true
-					})
-				}
-				for _, e := range cc.List {
-					if sel, ok := e.(*ast.SelectorExpr); ok {
-						fmtLit[sel.Sel.Name] = lit
-					}
-				}
-			}
-		}
-	}
+	// FormatType: SimpleType constant → literal (finite-domain evaluation of FormatType with *t.SimpleType fixed)
+	fmtLit := formatSimpleTable(c)
 	for _, bk := range baseKinds {
 		if bk.kind == "BinarySpec" {
 			// []byte = SliceType(SimpleTypeByte)
@@ -776,4 +750,63 @@ func checkRootExact(c *core.Ctx, l *core.Ledger) {
 		l.Check(ok, "ROOT-EXACT", key, c.Rel(f.Pos()), "every successful call appends the id to "+r.list+" unless it is already in the root set", "a successful return at "+where+" neither appends the id to "+r.list+" nor found it in the root set: a root of the generated files can be missing from the request")
 	}
 	l.Floor("ROOT-EXACT", 2)
+}
+
+// formatSimpleTable evaluates goFileGenerator.FormatType for every constant of
+// api.SimpleType (t.SimpleType non-nil, *t.SimpleType fixed to the constant)
+// and returns constant name -> the Go type name it returns. Constants for
+// which the result is not a fixed string are absent.
+func formatSimpleTable(c *core.Ctx) map[string]string {
+	out := map[string]string{}
+	f := c.SSAFunc(c.LookupFunc("plugin", "goFileGenerator.FormatType"))
+	if f == nil {
+		return out
+	}
+	st := c.Pkg("plugin/api").Types.Scope().Lookup("SimpleType").Type()
+	isSimplePtr := func(v ssa.Value) bool {
+		ld, ok := v.(*ssa.UnOp)
+		if !ok || ld.Op != token.MUL {
+			return false
+		}
+		fa, ok := ld.X.(*ssa.FieldAddr)
+		return ok && core.FieldOf(fa) != nil && core.FieldOf(fa).Name() == "SimpleType"
+	}
+	for _, k := range core.ConstsOf(c.Pkg("plugin/api").Types, st) {
+		kv, _ := constant.Int64Val(k.Val())
+		paths, ok := c.FiniteEval(f, core.FEOpts{Key: func(v ssa.Value) (core.CVal, bool) {
+			if isSimplePtr(v) {
+				return core.CVal{Kind: core.CNonNil}, true
+			}
+			if ld, isLd := v.(*ssa.UnOp); isLd && ld.Op == token.MUL && isSimplePtr(ld.X) {
+				return core.CVal{Kind: core.CInt, I: kv}, true
+			}
+			return core.CVal{}, false
+		}})
+		if !ok {
+			continue
+		}
+		vals := map[string]bool{}
+		for _, p := range paths {
+			if p.Panic != "" || len(p.Results) < 2 {
+				continue
+			}
+			// the branch taken for a set SimpleType: paths that did not have to guess another field first
+			if len(p.Conds) > 0 {
+				continue
+			}
+			if p.Results[0].Kind == core.CString && p.Results[1].Kind == core.CNil {
+				vals[p.Results[0].S] = true
+			} else {
+				vals["?"] = true
+			}
+		}
+		if len(vals) == 1 {
+			for s := range vals {
+				if s != "?" {
+					out[k.Name()] = s
+				}
+			}
+		}
+	}
+	return out
 }
